@@ -150,7 +150,7 @@ pub fn run(cx: &mut Ctx) {
     cx.check(
         "engines-vs-scalar",
         RULE,
-        Budget { quick: 300_000, thorough: 12_000_000, max_len: 3000 },
+        Budget { quick: 800_000, thorough: 20_000_000, max_len: 9000 },
         move |u, st| {
             let (c, cfg_kind) = dsv::cfg(u);
             let (t, kind) = dsv::text(u, c, max);
@@ -208,7 +208,7 @@ pub fn run(cx: &mut Ctx) {
         cx.check(
             "engines-vs-scalar-large",
             "as engines-vs-scalar with texts up to 64 KiB built by tiling generated pieces; bit vectors compared in full, rank/select sampled",
-            Budget { quick: 0, thorough: 60_000, max_len: 6000 },
+            Budget { quick: 0, thorough: 60_000, max_len: 9000 },
             move |u, st| {
                 let (c, cfg_kind) = dsv::cfg(u);
                 let target = u.range(4000, 65536);
